@@ -250,6 +250,7 @@ MUTANTS += [
     ("revert_run_for_zero", "C15", "REVERT", "already exhausted time budget", ""),
     ("revert_run_for_slow", "C15", "REVERT", "longer than a second", ""),
     ("revert_gibbs_limits", "C09", "REVERT", "no longer cancel each other", ""),
+    ("revert_ensemble_int_start", "C03", "REVERT", "converts integer starting positions", ""),
 ]
 
 # the last one is behaviour-preserving (serial request/response): the check must NOT alarm
